@@ -5,8 +5,9 @@ CONSTANTS
   Handlings = {"delta"}
   NDs = {2}
   Vals = {"a", "b"}
-  MaxLen = 3
+  MaxLen = 2
   MaxWrites = 3
   ContinueAfterError = TRUE
+  Rich = FALSE
 INVARIANTS R1_Unconditional
 CHECK_DEADLOCK FALSE
